@@ -15,6 +15,7 @@ import (
 	"net/url"
 	"os"
 	"path/filepath"
+	"sort"
 	"strings"
 	"sync"
 	"testing"
@@ -41,7 +42,10 @@ func simWorldMain(t *testing.T) { simrt.WorkerMain(t, &w5World{}) }
 type w5World struct{}
 
 func (w *w5World) Gen(rng *rand.Rand, property, tier string) (any, simrt.Sched) {
-	return w5Gen(rng, tier)
+	b, sched := w5Gen(rng, tier)
+	// C20 runs: runOnRead / runOnUnread configured on the paths (their pairing per HLS session is judged)
+	b.Hooks = property == "C20"
+	return b, sched
 }
 
 var w5SPS = []byte{
@@ -82,10 +86,47 @@ type w5Harness struct {
 	served  int
 	refused int
 	created int
+	// read hook pairs per HLS session (C20 share)
+	hookOpen, hookClosed map[string]int
 }
 
 func (h *w5Harness) Log(level logger.Level, format string, args ...any) {
 	msg := fmt.Sprintf(format, args...)
+	if strings.Contains(msg, "[session ") && (strings.Contains(msg, "runOnRead command started") || strings.Contains(msg, "runOnUnread command launched")) {
+		// the read hook pair of an HLS session (C20): "[session 1a2b3c4d] runOn..."
+		kind := "read"
+		if strings.Contains(msg, "runOnUnread") {
+			kind = "unread"
+		}
+		id := ""
+		if a := strings.Index(msg, "[session "); a >= 0 {
+			if b := strings.Index(msg[a:], "]"); b > 0 {
+				id = msg[a+9 : a+b]
+			}
+		}
+		h.mu.Lock()
+		if h.hookOpen == nil {
+			h.hookOpen = map[string]int{}
+			h.hookClosed = map[string]int{}
+		}
+		if kind == "read" {
+			h.hookOpen[id]++
+			if h.hookOpen[id] > 1 {
+				h.mu.Unlock()
+				h.violate("C20", "pair-opened-twice", "runOnRead was announced %d times for HLS session %s", h.hookOpen[id], id)
+				h.mu.Lock()
+			}
+		} else {
+			h.hookClosed[id]++
+			if h.hookClosed[id] > h.hookOpen[id] {
+				o, c := h.hookOpen[id], h.hookClosed[id]
+				h.mu.Unlock()
+				h.violate("C20", "close-without-open", "runOnUnread was announced %d time(s) for HLS session %s after %d announcement(s) of runOnRead", c, id, o)
+				h.mu.Lock()
+			}
+		}
+		h.mu.Unlock()
+	}
 	if strings.Contains(msg, "] [s->c] ") {
 		// the response dump of the HTTP logger is written while the request returns from gohlslib,
 		// where several requests blocked on one playlist are released at once by a condition
@@ -151,7 +192,11 @@ func (h *w5Harness) yaml() string {
 			}
 		}
 	}
-	sb.WriteString("paths:\n  cam1:\n  cam2:\n")
+	hk := ""
+	if h.body.Hooks {
+		hk = "    runOnRead: simhook read\n    runOnUnread: simhook unread\n"
+	}
+	sb.WriteString("paths:\n  cam1:\n" + hk + "  cam2:\n" + hk)
 	return sb.String()
 }
 
@@ -548,6 +593,20 @@ func (h *w5Harness) main() {
 		simrt.Violate("!", "infra-conf", "%v", err)
 		return
 	}
+	// simulated hook processes: the start commands run until terminated, the stop commands 20 ms
+	externalcmd.SimRun = func(cmdstr string, env externalcmd.Environment, terminate chan struct{}) (int, bool) {
+		simrt.Rec("proc.start", cmdstr, env["MTX_READER_ID"], 0, 0, 0)
+		if strings.HasSuffix(cmdstr, "unread") {
+			select {
+			case <-time.After(20 * time.Millisecond):
+				return 0, false
+			case <-terminate:
+				return 0, true
+			}
+		}
+		<-terminate
+		return 0, true
+	}
 	pool := &externalcmd.Pool{}
 	pool.Initialize()
 	am := &auth.Manager{Method: conf.AuthMethodInternal, InternalUsers: c0.AuthInternalUsers, ReadTimeout: 10 * time.Second}
@@ -618,6 +677,27 @@ func (h *w5Harness) main() {
 	simrt.Rec("shutdown.call", "", "", 0, 0, 0)
 	h.srv.Close()
 	h.pm.close()
+	if h.body.Hooks && !simrt.Aborted() {
+		// every session is gone: no read pair may be open (an open pair also keeps its command
+		// running, and the pool below would wait for it for ever)
+		h.mu.Lock()
+		ids := make([]string, 0, len(h.hookOpen))
+		for id := range h.hookOpen {
+			ids = append(ids, id)
+		}
+		sort.Strings(ids)
+		bad := ""
+		for _, id := range ids {
+			if h.hookOpen[id] != h.hookClosed[id] && bad == "" {
+				bad = fmt.Sprintf("after the HLS server and the path manager have shut down, the read pair of HLS session %s was opened %d time(s) and closed %d time(s)", id, h.hookOpen[id], h.hookClosed[id])
+			}
+		}
+		h.mu.Unlock()
+		if bad != "" {
+			simrt.Violate("C20", "pair-left-open", "%s", bad)
+			return
+		}
+	}
 	pool.Close()
 	simrt.Rec("shutdown.ret", "", "", 0, 0, 0)
 }
